@@ -147,6 +147,10 @@ def run_k1(ctx, p):
     T = T_of(ctx, s, pts)
     Q = rand_orth(rng, g)
     sh = rng.normal(size=g) * p["L"]
+    if rng.random() < 0.5:
+        # far from the origin (coordinates of a part in a large assembly): translation by 1 ... 1e7 times the size of the
+        # configuration; the comparison allows the rounding of the translated *inputs*, eps |shift| / D
+        sh = sh * 10.0 ** rng.uniform(0, 7)
     xd2 = Q @ xd + sh
     s2 = ctx.make(Kenamond1, geometry=g, D=p["D"], x_d=tuple(float(v) for v in xd2), t_d=p["t_d"])
     T2 = T_of(ctx, s2, pts @ Q.T + sh)
